@@ -46,8 +46,9 @@ def cli_args(o):
     a = []
     if o["fmt"] != "default":
         a += ["-F", FMT_CLI[o["fmt"]]]
-    if o["start"] != "auto" or o["stop"] != "auto":
-        a += ["-r", "%s-%s" % ("$" if o["start"] == "auto" else "0x%x" % o["start"], "$" if o["stop"] == "auto" else "0x%x" % o["stop"])]
+    wild = o.get("wild", "$")            # how an automatic bound is written: `$` or `0x` (manual: both mean lowest / highest address found)
+    if o["start"] != "auto" or o["stop"] != "auto" or o.get("rauto"):
+        a += ["-r", "%s-%s" % (wild if o["start"] == "auto" else "0x%x" % o["start"], wild if o["stop"] == "auto" else "0x%x" % o["stop"])]
     if o["reloc"]:
         a += ["-R", "0x%x" % o["reloc"]]
     if o["rel"]:
@@ -87,6 +88,39 @@ def default_opts():
                 rec5=True, sep=False, avrlen=3, seg=0, cformat="dSEl")
 
 
+def one_file(items):
+    """the classic case: one source argument without offset"""
+    return [dict(items=items, off=0, offtext=None)]
+
+
+def off_text(rng, v):
+    """the number `v` in one of the notations the manual allows on the command line (16, 10h, $10, 0x10), sign in front"""
+    m = abs(v)
+    t = rng.choice(["%d" % m, "0x%x" % m, "0x%X" % m, "$%x" % m, "%xh" % m, "%XH" % m, "0X%x" % m])
+    return ("-" if v < 0 else "") + t
+
+
+def eff_items(files):
+    """all items in command line order with every data record moved by its file's offset (32-bit) - what ends up in the hex file"""
+    out = []
+    for f in files:
+        for it in f["items"]:
+            out.append(it[:4] + ((it[4] + f["off"]) & 0xffffffff,) + it[5:] if it[0] == "d" else it)
+    return out
+
+
+def files_json(files):
+    return [dict(items=[list(it[:5]) + [it[5].hex()] if it[0] == "d" else list(it) for it in f["items"]], off=f["off"], offtext=f["offtext"])
+            for f in files]
+
+
+def files_from_json(d):
+    conv = lambda its: [tuple(x[:5]) + (bytes.fromhex(x[5]),) if x[0] == "d" else tuple(x) for x in its]
+    if "files" in d:
+        return [dict(items=conv(f["items"]), off=f.get("off", 0), offtext=f.get("offtext")) for f in d["files"]]
+    return one_file(conv(d["items"]))
+
+
 def family_default(cpu):
     """default format name of a family, read from the generated Lean table (translate/tables.py gen_families)"""
     global _FAMTAB
@@ -102,8 +136,10 @@ def family_default(cpu):
     return _FAMTAB.get(cpu)
 
 
-def gen_case(rng, idx):
-    """structured generator: (items, opts, tags)"""
+def gen_case(rng, idx, multi=False):
+    """structured generator: (files, opts, tags); files = [dict(items, off, offtext)] in command line order.
+    multi: the class 'several source arguments / address offsets name(offset)': 1-3 code files, each moved by an offset in
+    one of the documented notations (also negative), with automatic, half-automatic and explicit windows, -a, -R."""
     o = default_opts()
     tags = []
     fmt = rng.choice(["moto", "moto", "intel", "intel", "intel16", "intel32", "intel32", "mos", "mos", "tek", "atmel", "c"])
@@ -137,66 +173,126 @@ def gen_case(rng, idx):
         if gran > 1 and (o["ll"] + o["ll"] % 2) % gran:
             o["ll"] = 4 * gran
         tags.append("ll")
-    # records
-    nrec = rng.choice([1, 1, 1, 2, 2, 3, 4])
-    items = []
-    overflow = rng.random() < 0.06 and not wide and gran == 1
+    overflow = rng.random() < 0.06 and not wide and gran == 1 and not multi
     big = rng.random() < 0.04
-    used = []
-    for k in range(nrec):
-        n = rng.choice(LEN_POOL) if rng.random() < 0.8 else rng.randrange(1, 700)
-        if big and k == 0:
-            n = rng.choice([65535, 65534, 40000, 65521])
-            tags.append("big")
-        n = max(gran, n - n % gran)
-        if fmt == "atmel":
-            n = max(2, n - n % 2)
-        ng = n // gran
-        pools = [0, 1, 0xff, 0x100, 0x1000, 0x7ff0]
-        if fmax >= 0xffff:
-            pools += [0xfff0, 0x10000 - ng, 0x10000 - ng - 1, 0xffff - ng // 2, 0x8000]
-        if fmax > 0xffff:
-            pools += [0x10000, 0xfff8, 0xffff0, 0xffff8, 0x100000 - ng // 2, 0x100000, 0x12345]
-        if fmax > 0xfffff + 0xffff:
-            pools += [0xfffff0, 0xfffff8, 0x1000000, 0x1000000 - ng // 2, 0x7ffffff0, 0xfffe0000, 0x2fff8, 0x1fffe]
-        a = rng.choice(pools) if rng.random() < 0.75 else rng.randrange(0, max(1, min(fmax, 0x2000000)))
-        a = max(0, a)
-        if overflow and k == nrec - 1:
-            a = fmax - ng // 2 + rng.choice([0, 1, 5])
-            tags.append("addr-overflow")
-        elif a + ng - 1 > fmax:
-            a = max(0, fmax - ng + 1)
-        if any(not (a + ng <= s or e <= a) for s, e in used):
-            a = max(e for s, e in used) + rng.choice([0, 0, 3])       # avoid overlaps (they only produce a warning)
-            if a + ng - 1 > fmax and not overflow:
-                continue
-        used.append((a, a + ng))
-        data = bytes(rng.randrange(256) for _ in range(n)) if rng.random() < 0.8 else bytes([rng.choice([0, 0xff, 0x80])]) * n
-        items.append(("d", cpu, seg, gran, a, data))
-        if rng.random() < 0.12:     # a record of another segment that must not be selected
-            items.append(("d", cpu, 3 if seg != 3 else 1, 1, rng.randrange(0, 0x80), bytes([rng.randrange(256)] * 5)))
-            tags.append("other-segment")
-    if not any(it[2] == seg for it in items if it[0] == "d"):
-        items.append(("d", cpu, seg, gran, 0x100, bytes(range(gran * 4))))
-        used.append((0x100, 0x104))
+
+    def records(nrec, first):
+        """the records of one code file (addresses as stored in the file) and the spans [a, e) of the selected segment"""
+        items, used = [], []
+        for k in range(nrec):
+            n = rng.choice(LEN_POOL) if rng.random() < 0.8 else rng.randrange(1, 700)
+            if big and k == 0 and first:
+                n = rng.choice([65535, 65534, 40000, 65521])
+                tags.append("big")
+            n = max(gran, n - n % gran)
+            if fmt == "atmel":
+                n = max(2, n - n % 2)
+            ng = n // gran
+            pools = [0, 1, 0xff, 0x100, 0x1000, 0x7ff0]
+            if fmax >= 0xffff:
+                pools += [0xfff0, 0x10000 - ng, 0x10000 - ng - 1, 0xffff - ng // 2, 0x8000]
+            if fmax > 0xffff:
+                pools += [0x10000, 0xfff8, 0xffff0, 0xffff8, 0x100000 - ng // 2, 0x100000, 0x12345]
+            if fmax > 0xfffff + 0xffff:
+                pools += [0xfffff0, 0xfffff8, 0x1000000, 0x1000000 - ng // 2, 0x7ffffff0, 0xfffe0000, 0x2fff8, 0x1fffe]
+            a = rng.choice(pools) if rng.random() < 0.75 else rng.randrange(0, max(1, min(fmax, 0x2000000)))
+            a = max(0, a)
+            if overflow and k == nrec - 1:
+                a = fmax - ng // 2 + rng.choice([0, 1, 5])
+                tags.append("addr-overflow")
+            elif a + ng - 1 > fmax:
+                a = max(0, fmax - ng + 1)
+            if any(not (a + ng <= s or e <= a) for s, e in used):
+                a = max(e for s, e in used) + rng.choice([0, 0, 3])       # avoid overlaps (they only produce a warning)
+                if a + ng - 1 > fmax and not overflow:
+                    continue
+            used.append((a, a + ng))
+            data = bytes(rng.randrange(256) for _ in range(n)) if rng.random() < 0.8 else bytes([rng.choice([0, 0xff, 0x80])]) * n
+            items.append(("d", cpu, seg, gran, a, data))
+            if rng.random() < 0.12:     # a record of another segment that must not be selected
+                items.append(("d", cpu, 3 if seg != 3 else 1, 1, rng.randrange(0, 0x80), bytes([rng.randrange(256)] * 5)))
+                tags.append("other-segment")
+        if not any(it[2] == seg for it in items if it[0] == "d"):
+            items.append(("d", cpu, seg, gran, 0x100, bytes(range(gran * 4))))
+            used.append((0x100, 0x104))
+        return items, used
+
+    files, used = [], []        # used: spans of the selected segment as they land in the hex file (after the file offsets)
+    if not multi:
+        items, used = records(rng.choice([1, 1, 1, 2, 2, 3, 4]), True)
+        files.append(dict(items=items, off=0, offtext=None))
+    else:
+        tags.append("files")
+        nfiles = rng.choice([1, 1, 2, 2, 2, 3])
+        for fi in range(nfiles):
+            if fi and rng.random() < 0.2:     # the same code file once more, moved elsewhere (an image duplicated)
+                its, loc = files[0]["items"], files[0]["_loc"]
+                tags.append("same-file-twice")
+            else:
+                its, loc = records(rng.choice([1, 1, 2, 3]) if fi == 0 else rng.choice([1, 1, 2]), fi == 0)
+            flo, fhi = min(s for s, e in loc), max(e for s, e in loc)
+            # offsets that keep the moved records inside the address space of the format and clear of what is already placed
+            cands = [0] if rng.random() < 0.25 else []
+            for _ in range(12):
+                r = rng.random()
+                if r < 0.45:
+                    v = rng.choice([1, 2, 8, 0x10, 0x20, 0x80, 0x100, 0x400, 0x1000, 0x2000, 0x8000, 0x10000, 0x100000, 0x1000000])
+                elif r < 0.6:
+                    v = rng.randrange(1, 0x3000)
+                elif r < 0.8:
+                    v = -rng.choice([1, 2, 8, 0x10, 0x80, 0x100, 0x1000, 0x8000, 0x10000])
+                elif r < 0.9:
+                    v = -rng.randrange(1, flo + 1) if flo else 0
+                else:
+                    v = (max([e for s, e in used] or [0]) - flo) + rng.choice([0, 1, 0x10])       # right behind what is there
+                if fmt == "atmel" and gran == 1:
+                    v -= v % 2
+                cands.append(v)
+            pick = None
+            for v in cands:
+                if flo + v < 0 or fhi - 1 + v > fmax:
+                    continue
+                if any(not (e + v <= s2 or e2 <= s + v) for s, e in loc for s2, e2 in used):
+                    continue
+                pick = v
+                break
+            if pick is None:
+                if fi:
+                    continue
+                pick = 0
+            files.append(dict(items=its, off=pick, offtext=off_text(rng, pick) if pick or rng.random() < 0.3 else None, _loc=loc))
+            used += [(s + pick, e + pick) for s, e in loc]
+            if pick:
+                tags.append("offset-neg" if pick < 0 else "offset")
+        for f in files:
+            del f["_loc"]
+        if len(files) > 1:
+            tags.append("files%d" % len(files))
     lo = min(s for s, e in used)
     hi = max(e for s, e in used) - 1
     # window
     r = rng.random()
-    if r < 0.3 and seg == 1 and not (fmt == "atmel" and gran == 1):      # byte-granular Atmel: a window could cut a word
+    if r < (0.45 if multi else 0.3) and seg == 1 and not (fmt == "atmel" and gran == 1):      # byte-granular Atmel: a window could cut a word
         w0 = rng.randrange(lo, hi + 1)
         w1 = rng.randrange(w0, hi + 1)
         if rng.random() < 0.3:
             w0 = max(0, lo - 5)
         if rng.random() < 0.3:
             w1 = hi + 7
+        if multi and rng.random() < 0.3:
+            w0 = 0
         if rng.random() < 0.5:
             o["start"], o["stop"] = w0, w1
         elif rng.random() < 0.5:
             o["stop"] = w1
         else:
             o["start"] = w0
-        tags.append("window")
+        tags.append("window" if o["start"] != "auto" and o["stop"] != "auto" else "window-half-auto")
+    if multi:
+        o["wild"] = rng.choice(["$", "$", "0x", "0X"])
+        if o["start"] == "auto" and o["stop"] == "auto" and rng.random() < 0.4:
+            o["rauto"] = True           # the default range written out: -r $-$ / -r 0x-0x
+            tags.append("range-auto-explicit")
     if rng.random() < 0.25:
         o["rel"] = True
         tags.append("rel")
@@ -229,7 +325,7 @@ def gen_case(rng, idx):
     # entry (must fit the terminator's address field: S9/S8/S7 by the highest selected address, 20 bit for Intel16)
     r = rng.random()
     if fmt == "moto":
-        spans, _lo = selected_spans(items, o)
+        spans, _lo = selected_spans(eff_items(files), o)
         chi = max([e for a, e in spans] or [0])
         t = 2 if chi > 0xffffff else (1 if chi > 0xffff else 0)
         t = max(t, o["minmoto"] - 1)
@@ -237,7 +333,9 @@ def gen_case(rng, idx):
     else:
         emax = 0xffff if fmt in ("intel", "mos", "tek", "atmel") else (0xfffff if fmt == "intel16" else 0xffffffff)
     if r < 0.3:
-        items.append(("e", rng.choice([0, 1, 0x1234, emax, rng.randrange(0, emax + 1)])))
+        # the entry record of a code file is not an address of the moved contents: p2hex announces the first one it meets
+        for f in rng.sample(files, rng.choice([1, 1, 2]) if len(files) > 1 else 1):
+            f["items"] = f["items"] + [("e", rng.choice([0, 1, 0x1234, emax, rng.randrange(0, emax + 1)]))]
         tags.append("entry-file")
     elif r < 0.45:
         o["entry_opt"] = rng.choice([0, 0x100, 0xffff, rng.randrange(0, 0x10000)])
@@ -248,7 +346,7 @@ def gen_case(rng, idx):
     if fmt == "c" and rng.random() < 0.5:
         o["cformat"] = rng.choice(["DSEL", "dsel", "sld", "Ds"] + (["eD"] if gran == 1 else []))
         tags.append("cformat")
-    return items, o, [fmt] + tags
+    return files, o, [fmt] + tags
 
 
 def corpus_cases():
@@ -271,6 +369,16 @@ def corpus_cases():
     cs.append(([("d", 0x3b, 1, 2, 0x10, bytes(range(20)))], dict(d), ["atmel", "corpus:atmel-default"]))
     cs.append(([("d", 0x76, 1, 4, 0x3ffe, bytes(range(16)))], dict(d, ll=8), ["intel32", "gran4", "corpus:intel32-gran4-bank"]))
     cs.append(([("d", 0x51, 1, 1, 0x10, bytes(range(40))), ("d", 0x51, 1, 1, 0x100, bytes(range(3)))], dict(d, fmt="c"), ["c", "corpus:c"]))
+    cs = [(one_file(items), o, tags) for items, o, tags in cs]
+    # several source arguments / address offsets `name(offset)` (manual: "move a file's contents to an arbitrary position")
+    lo = [("d", 0x51, 1, 1, 0x100, bytes(range(0x41, 0x55)))]
+    hi = [("d", 0x51, 1, 1, 0x100, bytes(range(0x81, 0x95))), ("e", 0x1234)]
+    f = lambda items, off, text: dict(items=items, off=off, offtext=text)
+    cs.append(([f(lo, 0x1000, "$1000")], dict(d, fmt="intel"), ["intel", "files", "corpus:offset-manual-example"]))
+    cs.append(([f(lo, 0, None), f(hi, 0x1000, "0x1000")], dict(d, fmt="intel"), ["intel", "files", "corpus:two-files-second-moved"]))
+    cs.append(([f(hi, 0x1000, "1000h"), f(lo, 0, None)], dict(d, fmt="moto", start=0, wild="0x"), ["moto", "files", "corpus:two-files-first-moved-0-auto"]))
+    cs.append(([f(lo, -0x80, "-128"), f(hi, 0x10, "16")], dict(d, fmt="mos", stop=0x200), ["mos", "files", "corpus:offset-negative-auto-stop"]))
+    cs.append(([f(lo, 8, "8")], dict(d, fmt="intel32", reloc=0x20000, rel=True, rauto=True), ["intel32", "files", "corpus:offset-rel-reloc"]))
     return cs
 
 
@@ -348,18 +456,26 @@ def probe_quirks(bdir, wd):
     return q
 
 
-def run_case(bdir, wd, idx, items, o):
-    pf = os.path.join(wd, "c%d.p" % idx)
+def run_case(bdir, wd, idx, files, o):
+    """one p2hex call: the source arguments `name` / `name(offset)` in order, the target, the options.
+    Returns (request field of the sources for the driver, command line as reported, rc, stdout, stderr, output bytes)"""
     hx = os.path.join(wd, "out.hex")
-    fb = pfile(items)
-    open(pf, "wb").write(fb)
     if os.path.exists(hx):
         os.unlink(hx)
-    args = [pf, hx, "-q"] + cli_args(o)
+    srcs, names, req = [], [], []
+    for k, f in enumerate(files):
+        name = "c%d.p" % idx if len(files) == 1 else "c%d_%d.p" % (idx, k)
+        fb = pfile(f["items"])
+        open(os.path.join(wd, name), "wb").write(fb)
+        names.append(name)
+        srcs.append(name + ("(%s)" % f["offtext"] if f["offtext"] is not None else ""))
+        req.append(fb.hex() + ("@%d" % f["off"] if f["off"] else ""))
+    args = [os.path.join(wd, x) for x in srcs] + [hx, "-q"] + cli_args(o)
     rc, so, se = common.run_tool(bdir, "p2hex", args, wd, timeout=60)
     out = open(hx, "rb").read() if os.path.exists(hx) else None
-    os.unlink(pf)
-    return fb, args, rc, so, se, out
+    for n in names:
+        os.unlink(os.path.join(wd, n))
+    return ",".join(req), srcs + ["out.hex", "-q"] + cli_args(o), rc, so, se, out
 
 
 def sig_for(items, o, tags, kv, out_lines, quirks):
@@ -397,6 +513,7 @@ def run(args):
         return res.finish()
     ok = not any(p.startswith("driver does not build") for p in proof_problems)
     n_gen = {"quick": 1400, "thorough": 20000}[args.tier]
+    n_files = {"quick": 450, "thorough": 4000}[args.tier]       # class: several source arguments / offsets name(offset)
     rng = common.rng_for(args.seed, "C06")
     spec_fail, corr_fail, samples = [], [], []
     dist = {}
@@ -410,10 +527,12 @@ def run(args):
             for f in sorted(os.listdir(cdir)):
                 if f.endswith(".json"):
                     d = json.load(open(os.path.join(cdir, f)))
-                    its = [tuple(x[:5]) + (bytes.fromhex(x[5]),) if x[0] == "d" else tuple(x) for x in d["items"]]
-                    cases.append((its, d["opts"], d["tags"] + ["corpus:" + f]))
+                    cases.append((files_from_json(d), d["opts"], d["tags"] + ["corpus:" + f]))
         for i in range(n_gen):
             cases.append(gen_case(rng, i))
+        rng_f = common.rng_for(args.seed, "C06-files")
+        for i in range(n_files):
+            cases.append(gen_case(rng_f, i, multi=True))
         # default format over the whole family table (documented: chosen by processor type)
         fam_ok = 0
         fam_reqs = []       # (family id, items, first line of the real output without -F) -> driver mode c06fam
@@ -421,9 +540,9 @@ def run(args):
         for cpu, name in sorted(_FAMTAB.items()):
             its = [("d", cpu, 1, 1, 0x20, bytes(range(cpu, cpu + 6)))]
             if name in FMT_CLI:
-                cases.append((its, default_opts(), [name, "family-table"]))
+                cases.append((one_file(its), default_opts(), [name, "family-table"]))
             else:
-                fb, a, rc, so, se, out = run_case(bdir, wd, 0, its, default_opts())
+                fb, a, rc, so, se, out = run_case(bdir, wd, 0, one_file(its), default_opts())
                 first = (out or b"").split(b"\n")[0]
                 if rc == 0 and first:
                     fam_reqs.append((cpu, its, first))
@@ -431,32 +550,34 @@ def run(args):
                 fam_ok += 1 if good else 0
                 if not good:
                     corr_fail.append(dict(tag="family-table", why="family %#x: default format %s per headids.c, output starts %r" % (cpu, name, first[:30])))
-        for idx, (items, o, tags) in enumerate(cases):
-            fb, a, rc, so, se, out = run_case(bdir, wd, idx, items, o)
+        for idx, (files, o, tags) in enumerate(cases):
+            fb, a, rc, so, se, out = run_case(bdir, wd, idx, files, o)
             if rc != 0 or out is None:
                 spec_fail.append(dict(tag=tags, why="p2hex failed on a well-formed code file: rc=%s %s" % (rc, (so + se).decode(errors="replace")[-300:]),
-                                      items=[list(it[:5]) + [it[5].hex()] if it[0] == "d" else list(it) for it in items], opts=o, cmd=a[2:]))
+                                      files=files_json(files), opts=o, cmd=a))
                 continue
-            reqs.append("%s %s %s" % (fb.hex(), out.hex() if out else "-", req_opts(o, quirks)))
+            reqs.append("%s %s %s" % (fb, out.hex() if out else "-", req_opts(o, quirks)))
             if "family-table" in tags and out:
-                fam_reqs.append((items[0][1], items, out.split(b"\n")[0]))
-            metas.append((items, o, tags, a, out, se))
+                fam_reqs.append((files[0]["items"][0][1], files[0]["items"], out.split(b"\n")[0]))
+            metas.append((files, o, tags, a, out, se))
             for t in tags:
                 if not t.startswith("corpus:"):
                     dist[t] = dist.get(t, 0) + 1
         answers = common.driver("c06", reqs, timeout=3600) if ok and reqs else []
         n_lines = n_cells = 0
-        for (items, o, tags, a, out, se), ans in zip(metas, answers):
+        for (files, o, tags, a, out, se), ans in zip(metas, answers):
             kv = dict(x.split("=", 1) for x in ans.split() if "=" in x)
-            case = dict(tag=tags, items=[list(it[:5]) + [it[5].hex()] if it[0] == "d" else list(it) for it in items], opts=o, cmd=a[2:])
+            case = dict(tag=tags, files=files_json(files), opts=o, cmd=a)
+            items = eff_items(files)        # the records where the file offsets put them: input class of the recorded findings
             n_lines += int(kv.get("nlines", 0))
             n_cells += int(kv.get("ncells", 0))
             out_lines = out.decode("latin1").split("\n")[:-1]
-            key = (tags[0], o["ll"], len(items), o["rel"], o["reloc"] != 0, o["start"] != "auto", int(kv.get("nlines", 0)))
+            key = (tags[0], o["ll"], len(items), o["rel"], o["reloc"] != 0, o["start"] != "auto", int(kv.get("nlines", 0)),
+                   len(files), tuple(f["off"] != 0 for f in files), o["stop"] != "auto")
             if int(kv.get("nlines", 0)) >= 3:
                 distinct.add(key)
             if len(samples) < 4 and len(out_lines) >= 4 and "corpus" not in " ".join(tags) and tags[0] not in [s["tag"][0] for s in samples]:
-                samples.append(dict(tag=tags, cmd=a[2:], first_lines=out_lines[:4], verdict={k: v for k, v in kv.items() if k not in ("modelline", "realline")}))
+                samples.append(dict(tag=tags, cmd=a, first_lines=out_lines[:4], verdict={k: v for k, v in kv.items() if k not in ("modelline", "realline")}))
             if "model" not in kv or kv["model"].startswith("err") or ans.startswith("bad"):
                 corr_fail.append(dict(why="model could not process the case: " + ans[:200], **case))
                 continue
@@ -514,10 +635,11 @@ def run(args):
     res.coverage.update(
         evaluations=len(reqs), distinct_nontrivial=len(distinct),
         rule="hand-built code files (1-4 records, lengths around line/256/64K limits, addresses around 64 KiB/1 MiB/16 MiB/2^31) x formats x -r/-a/-R/-l/-e/-i/-m/-M/+5/-s/-avrlen/-segment/-cformat, plus every family of headids.c with its default format; "
-             "non-trivial = at least 3 output lines; distinct by (format, line length, #items, -a, -R used, window used, #lines)",
+             "plus the class 'source arguments': 1-3 code files per call, each optionally name(offset) (decimal, 0x.., $.., ..h, negative), with automatic (-r $-$ / 0x-0x / default), half-automatic (0-$, $-0x..) and explicit windows, -a, -R, every format; "
+             "non-trivial = at least 3 output lines; distinct by (format, line length, #items, -a, -R used, window start/stop given, #lines, #files, which files carry an offset)",
         samples=samples, distribution=dict(sorted(dist.items())), hex_lines_checked=n_lines, cells_decoded=n_cells,
         quirk_probe=dict(mosCarry=quirks[0], mosConst4=quirks[1], tekByteSums=quirks[2]), families_without_model_checked_by_first_line=fam_ok)
-    res.assumptions = ["TI-DSK and Mico8 output, -f filter, several source files, file offsets name(ofs), -d, overlap warnings are outside the model",
+    res.assumptions = ["TI-DSK and Mico8 output, -f filter, wildcards in source arguments, -d, -k, overlap warnings are outside the model; the parser of the offset notation (ConstLongInt) is exercised through the real program only (model and spec receive the value)",
                        "word-addressed targets (gran 2/4) are exercised only inside the first 16K words; S-record/MOS/Tek addresses are read as granule addresses",
                        "Tektronix: nibble-sum checksums are my reading of the public definition (fairly sure); a missing termination block is tolerated",
                        "S5 is checked as 'number of data records to follow' (AS manual), Intel -i 1/2 end lines are accepted only when requested"]
@@ -527,14 +649,14 @@ def run(args):
 def replay(args):
     d = json.load(open(args.replay))
     print(json.dumps({k: (v if len(str(v)) < 1500 else str(v)[:1500] + "...") for k, v in d.items()}, indent=1))
-    if "items" in d and "opts" in d:
+    if ("items" in d or "files" in d) and "opts" in d:
         bdir = common.repo_build("hooks")
-        items = [tuple(x[:5]) + (bytes.fromhex(x[5]),) if x[0] == "d" else tuple(x) for x in d["items"]]
+        files = files_from_json(d)
         with common.Workdir("c06r") as wd:
             q = probe_quirks(bdir, wd)
-            fb, a, rc, so, se, out = run_case(bdir, wd, 0, items, d["opts"])
-            print("p2hex", " ".join(a[2:]), "rc =", rc, se.decode(errors="replace")[-300:])
+            fb, a, rc, so, se, out = run_case(bdir, wd, 0, files, d["opts"])
+            print("p2hex", " ".join(a), "rc =", rc, se.decode(errors="replace")[-300:])
             print((out or b"").decode("latin1")[:1500])
             if out is not None:
-                print(common.driver("c06", ["%s %s %s" % (fb.hex(), out.hex() if out else "-", req_opts(d["opts"], q))])[0][:600])
+                print(common.driver("c06", ["%s %s %s" % (fb, out.hex() if out else "-", req_opts(d["opts"], q))])[0][:600])
     return 0
